@@ -41,29 +41,49 @@ def run(ctx):
 
 
 def r1b_body_loop(ctx):
-    """export_string's body visits every node of every stage in list order through append_row."""
+    """export_string's body visits every node of every stage in list order through append_row (symbolic execution of the body of
+    the stage loop: local names, an extracted row helper or a hoisted stage list do not matter)."""
     es = ctx.prog.func(f'{EXP}.export_string')
+    ar = ctx.prog.func(f'{EXP}.append_row')
     loops = [n for n in walk_local(es.node) if isinstance(n, ast.For) and 'range(from_stage' in src(n.iter)]
     ctx.expect_count('R1', 'stage loop of export_string', len(loops), 1)
     for lp in loops:
         at = f'{es.module.relpath}:{lp.lineno}'
-        inner = [n for n in lp.body if isinstance(n, ast.For)]
-        ok = len(inner) == 1 and src(inner[0].iter) in (f'enumerate(document.tree.stages[{lp.target.id}])',
-                                                       f'document.tree.stages[{lp.target.id}]')
-        calls = [c for c in ast.walk(lp) if isinstance(c, ast.Call) and src(c.func) == 'self.append_row'] if ok else []
-        okc = False
-        if len(calls) == 1:
-            b = F.bind_args(calls[0], ctx.prog.func(f'{EXP}.append_row'), True)
-            nodevar = inner[0].target.elts[1].id if isinstance(inner[0].target, ast.Tuple) else inner[0].target.id
-            okc = F.is_name(b.get('node'), nodevar) and F.is_name(b.get('options'), 'options') and F.is_name(b.get('row'), 'row') \
-                and F.is_name(b.get('document'), 'document')
-            # the call is unconditional in the inner loop
-            okc = okc and any(isinstance(s, ast.Expr) and s.value is calls[0] for s in inner[0].body) \
-                and not any(isinstance(x, (ast.Continue, ast.Break, ast.Return)) for x in ast.walk(inner[0]))
-        fresh_row = any(isinstance(s, ast.Assign) and src(s) == 'row = []' for s in lp.body)
-        ctx.check(ok and okc and fresh_row, 'R1', at, es.qualname, 'body-visits-every-node',
+        stage = lp.target.id if isinstance(lp.target, ast.Name) else None
+        ok = stage is not None
+        n_visits = 0
+        why = ''
+        for sp in symex.sym_paths(lp.body, fi=es):
+            its = [(k, e) for k, e in enumerate(sp.events) if e.kind == 'iter' and isinstance(e.node, ast.For)
+                   and src(e.expr) in (f'document.tree.stages[{stage}]', f'enumerate(document.tree.stages[{stage}])')]
+            skips = [e for e in sp.events if e.kind == 'skip' and isinstance(e.node, ast.For) and f'document.tree.stages[{stage}]' in src(e.expr)]
+            calls = [(k, e) for k, e in enumerate(sp.events) if e.kind == 'expr' and isinstance(e.expr, ast.Call) and src(e.expr.func) == 'self.append_row']
+            if not its:
+                if not skips or calls:
+                    ok, why = False, 'a path through the stage loop does not iterate the nodes of the stage'
+                continue
+            if len(its) != 1 or len(calls) != 1:
+                ok, why = False, f'{len(calls)} append_row calls on a path that visits the stage'
+                continue
+            (ki, it), (kc, call) = its[0], calls[0]
+            n_visits += 1
+            b_ = F.bind_args(call.expr, ar, True)
+            tgt = it.node.target
+            var = tgt.elts[1].id if isinstance(tgt, ast.Tuple) and len(tgt.elts) == 2 and isinstance(tgt.elts[1], ast.Name) else getattr(tgt, 'id', None)
+            row = b_.get('row')
+            good = var is not None and src(b_.get('node')) == f'{var}@{it.node.lineno}' and F.is_name(b_.get('options'), 'options') \
+                and F.is_name(b_.get('document'), 'document') and isinstance(row, ast.Name)
+            # unconditional inside the node loop, and no early exit from it
+            good = good and not any(e.kind == 'cond' for e in sp.events[ki:kc]) \
+                and not any(isinstance(x, (ast.Continue, ast.Break, ast.Return)) for x in ast.walk(it.node))
+            # the row is a list created for this stage
+            if good:
+                good = any(e.kind == 'assign' and e.target == [row.id] and src(e.expr) in ('[]', 'list()') for e in sp.events[:ki])
+            if not good:
+                ok, why = False, 'a node of the stage is not offered unconditionally to append_row with a fresh row and the caller\'s options'
+        ctx.check(ok and n_visits > 0, 'R1', at, es.qualname, 'body-visits-every-node',
                   'every node of every exported stage is offered once, in list order, to append_row with a fresh row and the caller\'s options',
-                  'the stage loop does not offer every node of the stage to append_row unconditionally')
+                  why or 'the stage loop does not offer every node of the stage to append_row unconditionally')
 
 
 def r3_query(ctx):
@@ -88,9 +108,11 @@ def r3_query(ctx):
             call = call or export_call(node)
         call = call or export_call(val)
         E = src(call) if call is not None else None
-        firsts = [f"{E}.split('\\n')[0]", f"{E}.split('\\n')[0:1][0]", f"{E}.partition('\\n')[0]", f"{E}.splitlines()[0]"] if E else []
+        firsts = [f"{E}.split('\\n')[0]", f"{E}.split('\\n')[0:1][0]", f"{E}.partition('\\n')[0]", f"{E}.splitlines()[0]",
+                  f"{E}.split('\\n', 1)[0]"] if E else []
         tokens = [f"{f_}.split('\\t')" for f_ in firsts]
-        blank_true = {f"{t_} in [[], ['']]" for t_ in tokens} | {f"'' == {f_}" for f_ in firsts}
+        blank_true = {f"{t_} in [[], ['']]" for t_ in tokens} | {f"'' == {f_}" for f_ in firsts} | {f"[''] == {t_}" for t_ in tokens} \
+            | {f"{t_} == ['']" for t_ in tokens}
         blank_false = {f'nonempty({f_})' for f_ in firsts} | set(firsts)
         blank_as = [a for a in ats if a in blank_true or a in blank_false]
         extra = set(ats) - {none_a, nonempty_a} - set(blank_as)
